@@ -139,16 +139,20 @@ void bn_set_bit(bn_t a, uint_t bit, int value) {
 
 	RLC_RIP(bit, d, bit);
 
-	bn_grow(a, d);
-
-	if (value == 1) {
-		a->dp[d] |= ((dig_t)1 << bit);
-		if ((d + 1) > a->used) {
-			a->used = d + 1;
+	RLC_TRY {
+		if (value == 1) {
+			bn_grow(a, d + 1);
+			if ((d + 1) > a->used) {
+				dv_zero(a->dp + a->used, d + 1 - a->used);
+				a->used = d + 1;
+			}
+			a->dp[d] |= ((dig_t)1 << bit);
+		} else if (d < a->used) {
+			a->dp[d] &= ~((dig_t)1 << bit);
+			bn_trim(a);
 		}
-	} else {
-		a->dp[d] &= ~((dig_t)1 << bit);
-		bn_trim(a);
+	} RLC_CATCH_ANY {
+		RLC_THROW(ERR_CAUGHT);
 	}
 }
 
